@@ -58,6 +58,20 @@ def main():
         if a.replay:
             rc = mod.replay(ctx, json.load(open(a.replay, encoding="utf-8")))
         else:
+            # corpus first: minimised failing cases from earlier violations / mutation trials
+            cdir = os.path.join(lib.CORPUS, pid)
+            n = 0
+            if os.path.isdir(cdir):
+                for f in sorted(os.listdir(cdir)):
+                    if f.endswith(".json"):
+                        try:
+                            mod.replay(ctx, json.load(open(os.path.join(cdir, f), encoding="utf-8")))
+                            n += 1
+                        except lib.HarnessError:
+                            raise
+                        except Exception as e:  # a corpus case the harness can no longer express
+                            ctx.notes.append(f"corpus case {f} could not be replayed: {type(e).__name__}: {e}")
+            ctx.extra["corpus_cases_replayed"] = n
             rc = mod.run(ctx)
     except lib.HarnessError as e:
         print(f"HARNESS-ERROR property={pid}: {e}")
